@@ -32,13 +32,19 @@ package ons
 //@   modifies nothing
 //@   ensures result == rev(s)
 
-//@ assume func (Name).IsSub
+// Name classification. The regular-expression language is not modelled, so WHAT the two patterns accept stays trusted
+// (nameIsSub / nameValid are the spec-level readings of `sub` and `reg`); that the two classifiers ARE the pattern matches -
+// IsSub is a match of the whole name against `subpattern` (any number of sub-labels), IsValid a length check and a match
+// against `pattern` - is verified on their bodies (T-REGEXP: a match is an uninterpreted function of pattern object and text).
+//@ func (Name).IsSub
 //@   modifies nothing
-//@   ensures result == nameIsSub(n)
+//@   trusts result == nameIsSub(n)
+//@   ensures result == @re_match_bool(subpattern, n)                                                               // C20.name-class
 
-//@ assume func (Name).IsValid
+//@ func (Name).IsValid
 //@   modifies nothing
-//@   ensures result == nameValid(n)
+//@   trusts result == nameValid(n)
+//@   ensures result == (len(n) <= 256 && @re_match_bool(pattern, n))                                               // C20.name-class
 
 //@ assume func (Name).GetParentName
 //@   modifies nothing
